@@ -72,7 +72,7 @@ where
 
 pub fn sleep(d: Duration) {
     let (rt, me) = current();
-    let deadline = rt.now() + d.as_nanos() as u64;
+    let deadline = rt.now().saturating_add(crate::sched::nanos_sat(d));
     rt.block(me, Res::Sleep, Some(deadline));
 }
 
